@@ -51,6 +51,9 @@ type Node struct {
 	lastCalls         []EngineCall
 	lastFaulted       bool
 	lastEngineTrouble bool
+	lastEnvTrouble    bool     // the engine was out of sync or asked for a non-increasing timestamp during the last PrepareProposal
+	lastInjected      bool     // an injected engine fault fired during the last PrepareProposal
+	lastGoatRejects   []string // the engine refused to build on the system transactions of the last PrepareProposal
 }
 
 func (w *World) newNode(id int, key *SecpKey) *Node {
